@@ -67,6 +67,10 @@ func mappedOf(c *net.UDPConn, hard bool) []string {
 }
 
 var attemptTimeout = 80 * time.Second
+var pqSockets = 500
+
+const pqRuns = 10
+var pqOnly = false
 
 func makeHolePair(vConn, cConn *net.UDPConn, vResp, cResp *msg.NatHoleResp, key []byte, cStart, vStart time.Time) (string, string) {
 	var wg sync.WaitGroup
@@ -138,7 +142,7 @@ func prequeued(i int) (string, bool) {
 	if vResp.DetectBehavior.Mode != 2 || vResp.DetectBehavior.Role != "receiver" || cResp.DetectBehavior.Role != "sender" {
 		return fmt.Sprintf("unexpected instructions: mode %d visitor %s", vResp.DetectBehavior.Mode, vResp.DetectBehavior.Role), false
 	}
-	vResp.DetectBehavior.ListenRandomPorts = 1500
+	vResp.DetectBehavior.ListenRandomPorts = pqSockets
 	key := []byte(fmt.Sprintf("prequeued-%d", i))
 	if i == 0 {
 		key = nil // a key-less pair
@@ -146,7 +150,7 @@ func prequeued(i int) (string, bool) {
 	// an unfiltered network also delivers strays: datagrams of 20 and 40 junk bytes from a third socket are queued on the
 	// receiver's candidate socket BEFORE the sender's detect message; MakeHole has to skip them (a crash here takes the whole
 	// driver down and is reported as "implementation crashed under driver rendezvous")
-	if third, err := udpOn("127.0.20.3"); err == nil {
+	if third, err := udpOn("127.0.20.3"); err == nil && i == pqRuns-1 { // only in the last run: the first reader must stay fast in the others
 		_, _ = third.WriteToUDP([]byte("01234567890123456789"), vConn.LocalAddr().(*net.UDPAddr))
 		_, _ = third.WriteToUDP([]byte("0123456789012345678901234567890123456789"), vConn.LocalAddr().(*net.UDPAddr))
 		third.Close()
@@ -192,6 +196,11 @@ func runRendezvous(cfg *hx.RunCfg) error {
 	if cfg.Tier != "quick" {
 		maxDelay = 1 << 30
 		attemptTimeout = 80 * time.Second
+	}
+	if strings.HasPrefix(cfg.Extra, "pq:") { // experiment: only the pre-queued runs, with this many sockets
+		fmt.Sscanf(cfg.Extra, "pq:%d", &pqSockets)
+		pqOnly = true
+		plans = nil
 	}
 	var mu sync.Mutex
 	var rows []*rvRow
@@ -325,16 +334,35 @@ func runRendezvous(cfg *hx.RunCfg) error {
 			inner.Wait()
 		}()
 	}
-	pqRes := make([]string, 3)
-	pqOne := make([]bool, 3)
-	for i := 0; i < 3; i++ {
-		i := i
-		outer.Add(1)
-		go func() {
-			defer outer.Done()
-			pqRes[i], pqOne[i] = prequeued(i)
-		}()
+	var pqRes []string
+	pqLost, pqBad := 0, 0
+	pqBatch := func() (lost, bad int, res []string) {
+		res = make([]string, pqRuns)
+		one := make([]bool, pqRuns)
+		var wg sync.WaitGroup
+		for i := 0; i < pqRuns; i++ {
+			i := i
+			wg.Add(1)
+			go func() {
+				defer wg.Done()
+				res[i], one[i] = prequeued(i)
+			}()
+		}
+		wg.Wait()
+		for i := range res {
+			if one[i] {
+				lost++
+			} else if res[i] != "" {
+				bad++
+			}
+		}
+		return
 	}
+	outer.Add(1)
+	go func() {
+		defer outer.Done()
+		pqLost, pqBad, pqRes = pqBatch()
+	}()
 	outer.Wait()
 
 	dist := map[string]int{}
@@ -376,26 +404,23 @@ func runRendezvous(cfg *hx.RunCfg) error {
 				r.key, r.index, r.mode, r.vRole, r.delay, r.ok, r.attempts, r.ms)})
 		}
 	}
-	pqLost, pqBad := 0, 0
-	for i := range pqRes {
-		if pqOne[i] {
-			pqLost++
-		} else if pqRes[i] != "" {
-			pqBad++
-		}
-	}
-	dist["prequeued_found_each_other"] = 3 - pqLost - pqBad
+	dist["prequeued_found_each_other"] = pqRuns - pqLost - pqBad
 	dist["prequeued_first_result_lost"] = pqLost
 	dist["prequeued_other_failure"] = pqBad
-	if pqLost >= 2 {
-		fails = append(fails, map[string]string{"key": "rendezvous:prequeued-first-result-dropped",
-			"what": fmt.Sprintf("MakeHole receiver lost a detect message that was queued before its readers started, in %d of 3 runs (the sender succeeded each time)", pqLost),
-			"case": strings.Join(pqRes, " | ")})
-	} else if pqBad >= 2 {
-		fails = append(fails, map[string]string{"key": "rendezvous:prequeued-failed",
-			"what": "the pre-queued mode-2 rendezvous failed in at least 2 of 3 runs", "case": strings.Join(pqRes, " | ")})
+	if pqLost >= 1 || pqBad >= 2 {
+		// runtime residue rule: reported only if it reproduces in a second batch
+		lost2, bad2, res2 := pqBatch()
+		dist["prequeued_second_batch_lost"] = lost2
+		if pqLost >= 1 && lost2 >= 1 {
+			fails = append(fails, map[string]string{"key": "rendezvous:prequeued-first-result-dropped",
+				"what": fmt.Sprintf("MakeHole receiver lost a detect message that was queued before its readers started, in %d of %d runs and again in %d of %d (the sender succeeded each time)", pqLost, pqRuns, lost2, pqRuns),
+				"case": strings.Join(append(pqRes, res2...), " | ")})
+		} else if pqBad >= 2 && bad2 >= 2 {
+			fails = append(fails, map[string]string{"key": "rendezvous:prequeued-failed",
+				"what": "the pre-queued mode-2 rendezvous failed in at least 2 runs of two batches", "case": strings.Join(append(pqRes, res2...), " | ")})
+		}
 	}
-	ran += 3
+	ran += pqRuns
 	cfg.St["cases"] = ran
 	cfg.St["distinct_nontrivial"] = ran
 	cfg.St["distribution"] = dist
